@@ -35,7 +35,7 @@ def cases(ctx):
     for s in [1, 127, 128, 255, 256, 32767, 32768, 2 ** 31, 2 ** 63 - 1]:
         add(cfg("CN=s", serialNumber=s), "serial")
     # fresh serials: many (a random serial below 2^160 needs 21 content octets half of the time)
-    for i in range(24 if ctx.quick else 400):
+    for i in range(48 if ctx.quick else 3000):
         add(cfg("CN=fresh %d" % i), "freshSerial")
     # unique ids
     for iu, su in [("!empty", None), (None, "!empty"), (raw(1), raw(1, 1)), (raw(300), None), (None, raw(300, 2)), ("!null", "!null")]:
@@ -81,7 +81,7 @@ def cases(ctx):
     if not ctx.quick:
         for size in [65535, 65536, 70000]:
             add(cfg("CN=huge", extensions=[{"custom": {"oid": "1.2.3.9", "raw": raw(size, size)}}]), "extensions")
-        for i in range(300):
+        for i in range(6000):
             k = r.randrange(0, len(ext_all) + 1)
             exts = r.sample(ext_all, k)
             add(cfg("CN=rnd %d, O=%s" % (i, "o" * r.randrange(1, 150)), extensions=exts, serialNumber=r.choice([None, r.randrange(1, 2 ** 63)]),
